@@ -565,5 +565,108 @@ def k8(ctx, kr):
     kr.exhaustive = True
     kr.outside = ['longer texts; bytes outside the alphabet; OSCAT descriptions (C05-K2)']
 
-KERNELS = [k1a, k1b, k2, k4, k5, k6, k7, k8]
+# ---------------------------------------------------------------------------------------------- K9 any mix of blanks, tabs, line breaks and comments between two tokens: same parse
+LAYOUT_PROGRAMS = {
+    'types': 'TYPE\n  level : (info, critical) := info;\n  rng : INT(1..10);\n  pt : STRUCT\n    x : INT;\n    y : REAL := 1.5;\n  END_STRUCT;\n  arr : ARRAY[1..3, 0..1] OF INT := [1, 2(0), 3];\n  txt : STRING[10] := \'ab\';\n  al : level;\nEND_TYPE\n',
+    'function_block': 'FUNCTION_BLOCK fb\nVAR_INPUT\n  a : INT;\n  e : BOOL R_EDGE;\nEND_VAR\nVAR_OUTPUT RETAIN\n  q : BOOL;\nEND_VAR\nVAR\n  s : pt;\n  t : TIME := T#1.5s;\n  c : level := level#info;\n  n : INT := INT#5;\nEND_VAR\n  s.x := a + 1;\n  q := NOT (a > 2) AND e;\nEND_FUNCTION_BLOCK\n',
+    'statements': 'PROGRAM p\nVAR\n  i : INT;\n  k : INT;\n  inst : fb;\n  ar : ARRAY[1..3] OF INT;\nEND_VAR\n  IF i > 0 THEN\n    k := 1;\n  ELSIF i < 0 THEN\n    k := 2;\n  ELSE\n    k := 3;\n  END_IF;\n  CASE k OF\n    1, 2:\n      i := 0;\n    3..5:\n      i := 1;\n  ELSE\n    i := 2;\n  END_CASE;\n'
+                  '  FOR i := 1 TO 10 BY 2 DO\n    ar[i] := k * -1;\n  END_FOR;\n  WHILE i < 3 DO\n    i := i + 1;\n  END_WHILE;\n  REPEAT\n    i := i - 1;\n  UNTIL i = 0\n  END_REPEAT;\n  inst(a := i, q => k);\n  k := f(i, 2);\n  RETURN;\nEND_PROGRAM\n',
+    'configuration': 'CONFIGURATION cfg\n  VAR_GLOBAL CONSTANT\n    g : INT := 1;\n  END_VAR\n  RESOURCE res ON plc\n    TASK tsk(INTERVAL := T#100ms, PRIORITY := 1);\n    PROGRAM inst WITH tsk : prog;\n  END_RESOURCE\nEND_CONFIGURATION\n',
+    'function': 'FUNCTION f : INT\nVAR_INPUT\n  a : INT;\n  b : INT;\nEND_VAR\nVAR\n  d : DATE := D#2020-01-02;\n  z : TOD := TOD#01:02:03;\nEND_VAR\n  f := a ** 2 MOD b;\nEND_FUNCTION\n',
+    'sfc': 'FUNCTION_BLOCK sf\nVAR\n  done : BOOL;\nEND_VAR\nINITIAL_STEP Start:\nEND_STEP\nSTEP Work:\n  act(N, done);\nEND_STEP\nTRANSITION tr (PRIORITY := 1) FROM Start TO Work\n  := NOT done;\nEND_TRANSITION\nACTION act:\n  done := TRUE;\nEND_ACTION\nEND_FUNCTION_BLOCK\n',
+}
+LAYOUTS = [' ', '\n', '\t', ' (* c *) ', '\r\n', '(* a *)(* b *)']
+
+def _gaps(ctx, text):
+    """byte offsets between two consecutive non-trivia tokens: (start of the gap, end of the gap)  (start == end where the tokens touch)"""
+    from mirsym import lexlift
+    LM = LC.lexmodel(ctx); data = text.encode()
+    toks = [(k, a, b) for k, a, b in lexlift.lex_concrete(LM, data)]
+    sig = [(k, a, b) for k, a, b in toks if k not in ('Whitespace', 'Newline', 'Comment')]
+    return [(sig[i][2], sig[i + 1][1]) for i in range(len(sig) - 1)]
+
+def _k9_job(job):
+    pname, gap_idxs = job
+    from . import C10 as K10, C01 as K01, tplcommon as TP
+    ctx = _CTX; part = Part(); part.res = {}; part.pname = pname
+    text = LAYOUT_PROGRAMS[pname]; gaps = _gaps(ctx, text)
+    P = ctx.program()
+    k_parse = P.find_fn('ironplc-parser', 'parse_program'); k_opt = TP.parse_opts(P)
+    st = {}
+    M = Machine(P, stubs=K10.dyn_lexer_stubs(ctx, {}), max_steps=400_000_000)
+    def entry(M):
+        g = M.fresh_bv('gap', 16); M.declare_domain(g, list(gap_idxs)); gi = gap_idxs[-1]
+        for v in gap_idxs[:-1]:
+            if M.branch(g == v): gi = v; break
+        nl = len(LAYOUTS) if ctx.tier != 'quick' else 3
+        l = M.fresh_bv('layout', 8); M.declare_domain(l, list(range(nl)) + [len(LAYOUTS)]); li = len(LAYOUTS)
+        for v in range(nl):
+            if M.branch(l == v): li = v; break
+        a, b = gaps[gi]; data = text.encode()
+        # li == len(LAYOUTS): the text as written
+        src = text if li == len(LAYOUTS) else (data[:a] + LAYOUTS[li].encode() + data[b:]).decode()
+        st['key'] = (gi, li); st['src'] = src
+        fid = Ref(Cell(Agg('FileId', [Str('f.st')])))
+        opts = Ref(Cell(M.call_fn(k_opt[0], []) if k_opt else Agg('ParseOptions', [False])))
+        r1 = M.call_fn(k_parse, [Ref(Cell(Str(src))), fid, opts])
+        return 'rejected' if r1.disc != 0 else K01._canon(M, r1.f[0])
+    def on_path(M, pr):
+        part.paths += 1
+        if pr.inconclusive: part.inconc('%s: %s' % (pname, pr.inconclusive)); return
+        if pr.panic: part.inconc('%s: panic (C04) %s' % (pname, pr.panic.msg[:50])); return
+        part.nontrivial += 1
+        part.res[st['key']] = (pr.result, st['src'])
+    M.explore(entry, on_path)
+    part.queries += M.stats['smt']; part.encoded = set(M.encoded); part.models = set(M.models_used)
+    return part
+
+@replay_factory('layout_pair')
+def _replay_layout_pair(a, b):
+    def rp(ctx):
+        r = ctx.replay({'cmd': 'parse_eq', 'a': a, 'b': b})
+        if 'panic' in r: return True, r
+        same = (r.get('a_ok') == r.get('b_ok')) and (not r.get('a_ok') or r.get('equal'))
+        return not same, {'a_parses': r.get('a_ok'), 'b_parses': r.get('b_ok'), 'libraries_equal': r.get('equal'), 'a': a[-160:], 'b': b[-160:]}
+    return rp
+
+@kernel('K9 parser.layout_between_tokens')
+def k9(ctx, kr):
+    global _CTX
+    _CTX = ctx
+    jobs = []
+    for pn, text in LAYOUT_PROGRAMS.items():
+        n = len(_gaps(ctx, text)); idx = list(range(n))
+        if ctx.tier == 'quick': idx = idx[(ctx.seed % 3)::3]          # quick: every third position (VERIF_SEED picks which third), and three layouts
+        for c in range(0, len(idx), 12): jobs.append((pn, idx[c:c + 12]))
+    kr.bounds = ('%d programs (%s): at every position between two consecutive tokens [quick: every third position, first three layouts] the text between them is replaced by each of %r: parse_program on the MIR gives the same outcome '
+                 '(the same library, positions ignored, or a rejection) for all of them; where the tokens were separated by layout as written, that outcome is the one of the text as written' % (len(LAYOUT_PROGRAMS), ', '.join(LAYOUT_PROGRAMS), LAYOUTS))
+    res = {pn: {} for pn in LAYOUT_PROGRAMS}
+    for part in par_map(_k9_job, jobs):
+        res[part.pname].update(part.res); merge_part(kr, part)
+    for pn, R in res.items():
+        text = LAYOUT_PROGRAMS[pn]; gaps = _gaps(ctx, text)
+        for gi in sorted({k[0] for k in R}):
+            outs = {li: R[(gi, li)] for li in range(len(LAYOUTS) + 1) if (gi, li) in R}
+            a, b = gaps[gi]
+            base = [li for li in outs if li < len(LAYOUTS)]
+            if a != b and len(LAYOUTS) in outs: base.append(len(LAYOUTS))          # the tokens were separated as written: the original text is one more member of the class
+            if len(base) < 2: continue
+            ref = outs[base[0]]
+            for li in base[1:]:
+                if outs[li][0] != ref[0]:
+                    ctxt = re.sub(r'\s+', ' ', text.encode()[max(0, a - 14):b + 14].decode())
+                    role = 'C08/K9/%s/%s' % (pn, re.sub(r'[^A-Za-z0-9_#.:=<>+*-]+', '_', ctxt).strip('_')[:40])
+                    if not any(f.role == role for f in kr.findings):
+                        def show(o): return 'a rejection' if o[0] == 'rejected' else 'a library'
+                        kr.findings.append(Finding(role, 'program %s, between the tokens at %r: layout %r gives %s, layout %r gives %s%s' % (pn, ctxt, (LAYOUTS + ['<as written>'])[base[0]], show(ref), (LAYOUTS + ['<as written>'])[li], show(outs[li]),
+                                           '' if 'rejected' in (ref[0], outs[li][0]) else ' that differs'), {'a': ref[1], 'b': outs[li][1]}, replay=_replay_layout_pair(ref[1], outs[li][1])))
+                    break
+    if len(kr.validate) < 1:
+        t = LAYOUT_PROGRAMS['function']; kr.validate.append(('layout_pair', (t, t.replace(' ', '\t'))))
+    P = ctx.program()
+    kr.functions = fn_paths(P, getattr(kr, '_enc', set()))[:150] + ['ironplc-parser::<TokenType as Logos>::lex (lifted)']
+    kr.exhaustive = True
+    kr.outside = ['programs other than the six; two positions changed at once; layout inside tokens']
+
+KERNELS = [k1a, k1b, k2, k4, k5, k6, k7, k8, k9]
 
